@@ -76,3 +76,21 @@ package telem
 //@ inline func (f Frame[K]) RawSeriesAt(i int) Series
 //@ # the wall clock: any value
 //@ ignore func Now() TimeStamp
+
+//@ # ---- frames decoded from JSON / msgpack (C08: the WebSocket endpoints' control messages): what
+//@ # the decoder accepts has as many keys as series - the invariant every Frame method relies on
+//@ # (and the precondition the C07 switches state for the frames they are handed)
+//@ ignorepkg encoding/json
+//@ ignorepkg github.com/vmihailenco/msgpack/v5
+//@ func (f serializableFrame[K]) validate() (err error)
+//@   tparams K types.SizedNumeric
+//@   ensures (err == nil) == (len(f.Keys) == len(f.Series))
+//@   modifies nothing
+//@ func (f *Frame[K]) UnmarshalJSON(data []byte) (err error)
+//@   tparams K types.SizedNumeric
+//@   ensures err == nil ==> len(f.keys) == len(f.series)
+//@   modifies f
+//@ func (f *Frame[K]) DecodeMsgpack(dec *msgpack.Decoder) (err error)
+//@   tparams K types.SizedNumeric
+//@   ensures err == nil ==> len(f.keys) == len(f.series)
+//@   modifies f
